@@ -40,7 +40,8 @@ class VDI(AlignedStream):
 
         bytes_read = []
         while length > 0:
-            read_len = min(length, max(length, self.block_size))
+            # Never read across a block boundary, blocks are not necessarily adjacent in the file
+            read_len = min(length, self.block_size - block_offset)
 
             block = self.map[block_idx]
 
@@ -58,5 +59,6 @@ class VDI(AlignedStream):
             offset += read_len
             length -= read_len
             block_idx += 1
+            block_offset = 0
 
         return b"".join(bytes_read)
